@@ -79,6 +79,8 @@ const S1_RULES: &[&str] = &[
     "/ad[0-9]+/$tag=a",
     "foo*baz",
     "/x[0-9]y/",
+    "/Xu[0-9]Y/",
+    "/CaSe[0-9]/$match-case",
     "@@foo*bar/ok^",
     "||imp.com^*z$important",
     "||x.com^$csp=d1,tag=a",
@@ -108,11 +110,13 @@ const S1_URLS: &[(&str, &str)] = &[
     ("https://x.com/baz/qux", "script"),
     ("https://x.com/ad12", "script"),
     ("https://imp.com/az", "image"),
+    ("https://x.com/xu1y", "script"),
+    ("https://x.com/CaSe1", "script"),
 ];
 
 fn s1_ops() -> Vec<Op1> {
     vec![
-        Op1::Check(0), Op1::Check(1), Op1::Check(2), Op1::Check(3), Op1::Csp, Op1::Cosmetic,
+        Op1::Check(0), Op1::Check(1), Op1::Check(2), Op1::Check(3), Op1::Check(4), Op1::Check(5), Op1::Csp, Op1::Cosmetic,
         Op1::Use(0), Op1::Use(1), Op1::Use(2), Op1::Use(3), Op1::EnableA, Op1::DisableA,
         Op1::AlwaysDiscard, Op1::NeverDiscard, Op1::DiscardAll, Op1::SerDeSame, Op1::SerDeFresh,
     ]
@@ -599,14 +603,28 @@ fn report(p: &Prepared, res: &ResourceStorage, scn: usize, seq: &[usize], first:
     l.mismatch(Mismatch {
         sig,
         what: format!("scenario {} minimal history {:?} (found in {:?}): expected {} got {} (reproduced twice: {}; with address reuse disabled: {})", scn, op_names(scn, &min), op_names(scn, trimmed), exp, got, stable, if ctrl.is_none() { "passes" } else { "fails too" }),
-        case: json!({"scenario": scn, "ops": min}),
+        case: json!({"scenario": scn, "ops": op_names(scn, &min)}),
         size: (min.len() * 100) as u64 + min.iter().sum::<usize>() as u64,
     });
 }
 
 fn replay(case: &Value, l: &mut Local) {
     let scn = case["scenario"].as_u64().unwrap_or(1) as usize;
-    let seq: Vec<usize> = case["ops"].as_array().map(|a| a.iter().filter_map(|v| v.as_u64().map(|x| x as usize)).collect()).unwrap_or_default();
+    // operations are stored by name (indices move when the alphabet grows); plain indices are
+    // still accepted
+    let nops = match scn { 1 => s1_ops().len(), 2 | 4 => s2_ops().len(), _ => s3_ops().len() };
+    let table: Vec<String> = (0..nops).map(|i| op_names(scn, &[i]).remove(0)).collect();
+    let seq: Vec<usize> = case["ops"]
+        .as_array()
+        .map(|a| {
+            a.iter()
+                .filter_map(|v| match v {
+                    Value::String(n) => table.iter().position(|t| t == n),
+                    other => other.as_u64().map(|x| x as usize),
+                })
+                .collect()
+        })
+        .unwrap_or_default();
     let p = Prepared { s1: s1_prepare(), s2: s2_prepare(seq.len(), false), s3: s3_prepare(), s4: s2_prepare(seq.len(), true) };
     let res = ResourceStorage::from_resources(resources());
     // run on a fresh thread so that the free lists start empty, like in a fresh process
@@ -621,7 +639,7 @@ fn replay(case: &Value, l: &mut Local) {
 
 fn check(ctx: &Ctx) -> i32 {
     // depth per scenario (S1 needs 5 operations for the shortest address-reuse history)
-    let depths: [usize; 3] = ctx.tier.pick([5, 4, 5], [6, 5, 6]);
+    let depths: [usize; 3] = ctx.tier.pick([5, 4, 5], [6, 5, 6]); // S1: core operations at this depth, all operations one step shallower
     ctx.bound("history_depth_s1_s2_s3", json!(depths));
     let p = Prepared { s1: s1_prepare(), s2: s2_prepare(depths[1], false), s3: s3_prepare(), s4: s2_prepare(depths[1], true) };
     ctx.bound("s1_operations", p.s1.ops.len());
@@ -633,36 +651,56 @@ fn check(ctx: &Ctx) -> i32 {
         l.states += 4 + p.s2.expected.len() as u64 + 1;
         ctx.merge(l);
     }
-    for scn in [1usize, 2, 3, 4] {
-        let (nops, queries): (u64, Vec<usize>) = match scn {
-            1 => (p.s1.ops.len() as u64, (0..p.s1.ops.len()).filter(|&i| is_query1(&p.s1.ops[i])).collect()),
-            2 | 4 => (p.s2.ops.len() as u64, (0..p.s2.ops.len()).filter(|&i| is_query2(&p.s2.ops[i])).collect()),
-            _ => (p.s3.ops.len() as u64, (0..p.s3.ops.len()).filter(|&i| is_query3(&p.s3.ops[i])).collect()),
+    // Sweeps: (scenario, operation subset, depth). Scenario 1 is the expensive one (every history
+    // rebuilds an engine with regex rules and resources): the full alphabet is explored one step
+    // shallower than its "core" sub-alphabet (tag switches, two regex queries, one full-regex query,
+    // the discards and one round trip), which contains the shortest address-reuse history.
+    let s1_core: Vec<usize> = {
+        use Op1::*;
+        let want = [Check(0), Check(1), Check(4), Use(0), Use(1), Use(2), EnableA, DisableA, DiscardAll, AlwaysDiscard, SerDeSame];
+        (0..p.s1.ops.len()).filter(|&i| want.contains(&p.s1.ops[i])).collect()
+    };
+    let all = |n: usize| -> Vec<usize> { (0..n).collect() };
+    let sweeps: Vec<(usize, &str, Vec<usize>, usize)> = vec![
+        (1, "all operations", all(p.s1.ops.len()), depths[0] - 1),
+        (1, "core operations", s1_core, depths[0]),
+        (2, "all operations", all(p.s2.ops.len()), depths[1]),
+        (3, "all operations", all(p.s3.ops.len()), depths[2]),
+        (4, "all operations", all(p.s2.ops.len()), depths[1]),
+    ];
+    for (scn, label, subset, d) in sweeps {
+        let is_q = |i: usize| match scn {
+            1 => is_query1(&p.s1.ops[i]),
+            2 | 4 => is_query2(&p.s2.ops[i]),
+            _ => is_query3(&p.s3.ops[i]),
         };
-        // histories of exactly `depth` operations whose last operation is a query: every shorter
+        let queries: Vec<usize> = subset.iter().copied().filter(|&i| is_q(i)).collect();
+        let nops = subset.len() as u64;
+        // histories of exactly `d` operations whose last operation is a query: every shorter
         // history is a prefix of one of them and is checked on the way (answers are compared
         // at every query, not only the last).
-        let d = depths[if scn == 4 { 1 } else { scn - 1 }];
         let prefixes = nops.pow(d as u32 - 1);
         let total = prefixes * queries.len() as u64;
-        ctx.par_range(&format!("scenario {} histories", scn), total, 256, |i, l| {
+        let subset_ref = &subset;
+        let queries_ref = &queries;
+        ctx.par_range(&format!("scenario {} histories, {} ({}), depth {}", scn, label, nops, d), total, 256, |i, l| {
             let res_holder;
             let res: &ResourceStorage = {
                 res_holder = ResourceStorage::from_resources(resources());
                 &res_holder
             };
             let mut seq = Vec::with_capacity(d);
-            let mut r = i / queries.len() as u64;
+            let mut r = i / queries_ref.len() as u64;
             for _ in 0..d - 1 {
-                seq.push((r % nops) as usize);
+                seq.push(subset_ref[(r % nops) as usize]);
                 r /= nops;
             }
             seq.reverse();
-            seq.push(queries[(i % queries.len() as u64) as usize]);
+            seq.push(queries_ref[(i % queries_ref.len() as u64) as usize]);
             if l.samples.len() < 2 && (i + ctx.seed) % 30011 == 13 {
                 l.samples.push(json!({"scenario": scn, "history": op_names(scn, &seq)}));
             }
-            let nq = seq.iter().filter(|&&o| queries.contains(&o)).count();
+            let nq = seq.iter().filter(|&&o| is_q(o)).count();
             if nq >= 2 {
                 l.nontrivial += 1;
             }
